@@ -20,7 +20,7 @@ def c02(tier):
         Harness('VHarnessAmountChecked', 'cashu', ['cashu/zz_verif_cashu.go'], bounds='<= 4 outputs, amounts full 64 bit', must_reach=('ok', 'overflow')),
     ]
 
-MINT_FILES = ['mint/zz_verif_env.go', 'mint/zz_verif_swap.go', 'mint/zz_verif_melt.go', 'mint/zz_verif_quotes.go', 'mint/zz_verif_minttokens.go', 'mint/zz_verif_query.go', 'mint/zz_verif_hook.go', 'mint/zz_verif_crash.go', 'mint/storage/sqlite/zz_verif_db.go']
+MINT_FILES = ['mint/zz_verif_env.go', 'mint/zz_verif_swap.go', 'mint/zz_verif_melt.go', 'mint/zz_verif_quotes.go', 'mint/zz_verif_minttokens.go', 'mint/zz_verif_query.go', 'mint/zz_verif_hook.go', 'mint/zz_verif_crash.go', 'mint/zz_verif_sched.go', 'mint/storage/sqlite/zz_verif_db.go']
 MINT_MODELS = ('std', 'crypto', 'json', 'sql', 'mint', 'threads')
 MINT_ASSUME = COMMON_ASSUME + [
     'keysets of the harness mint hold the denominations {1, 2, 2^63} only (the 60-entry tables are cut; the arithmetic kernels are checked at full width separately)',
@@ -34,11 +34,15 @@ def mint_h(name, bounds, **kw):
     return Harness(name, 'mint', MINT_FILES, models=MINT_MODELS, bounds=bounds, **kw)
 
 def c01(tier):
-    return [mint_h('VHarnessSwapC01', 'swap: <= 2 inputs, <= 1 output, every field free; 2 proofs + 1 pending + 1 blind_signatures arbitrary rows',
+    return [
+        mint_h('VHarnessRaceSwapSwap', '2 concurrent swaps of the same genuine proof, schedule symbolic at storage-call granularity, <= 2 pre-emptions', sched=True, must_reach=('joined', 'one-honoured')),
+        mint_h('VHarnessRaceSwapMelt', 'swap and melt of the same genuine proof concurrently, schedule symbolic, <= 2 pre-emptions', sched=True, must_reach=('joined', 'one-honoured')),mint_h('VHarnessSwapC01', 'swap: <= 2 inputs, <= 1 output, every field free; 2 proofs + 1 pending + 1 blind_signatures arbitrary rows',
                    must_reach=('swap-accepted', 'swap-rejected'))]
 
 def c03(tier):
-    return [mint_h('VHarnessMintTokensC03', 'mint: quote in any state, optional NUT-20 lock, <= 2 free outputs, 6 signature variants, 1 arbitrary blind_signatures row',
+    return [
+        mint_h('VHarnessRaceMintMint', '2 concurrent mint requests with different outputs on one PAID quote, schedule symbolic, <= 2 pre-emptions', sched=True, must_reach=('joined',)),
+        mint_h('VHarnessRaceMintWatcher', 'mint request + real invoice watcher (checkInvoicePaid) + second mint request, schedule symbolic, <= 2 pre-emptions', sched=True, must_reach=('joined',)),mint_h('VHarnessMintTokensC03', 'mint: quote in any state, optional NUT-20 lock, <= 2 free outputs, 6 signature variants, 1 arbitrary blind_signatures row',
                    must_reach=('mint-accepted', 'mint-rejected'))]
 
 def c06(tier):
@@ -71,8 +75,10 @@ def c07(tier):
         hs.append(mint_h('VHarnessFault' + op, op + ': ' + b + '; storage error injected at any one of its storage calls (position symbolic), follow-up probes', must_reach=('struck', 'not-struck'), **kw))
     return hs
 def c05(tier):
-    return [mint_h('VHarnessMeltC05', 'melt + 1 poll: 1..2 genuine inputs, backend script <= 3 answers, poll through quote state or checkstate', must_reach=('poll-1',)),
-            mint_h('VHarnessMeltC05Polls', 'melt + 2 polls: backend script <= 4 answers', must_reach=('poll-2',))]
+    hs = [mint_h('VHarnessMeltC05', 'melt + 1 poll: 1 genuine input, quote amount/reserve/MPP symbolic, backend script <= 3 answers (status symbolic, error kind enumerated), poll through quote state or checkstate', must_reach=('poll-1',))]
+    if tier == 'thorough':
+        hs.append(mint_h('VHarnessMeltC05Polls', 'melt + 2 polls: backend script <= 4 answers', must_reach=('poll-2',), timeout_s=1800))
+    return hs
 
 PROPS = {
     'C05': dict(harnesses=c05, level='bounded symbolic verification over scripted Lightning answers', assumptions=MINT_ASSUME, outside=['the real LND/CLN adapters (network code); the property is stated at the lightning.Client interface']),
